@@ -297,7 +297,14 @@ def _rand_model_once(rng, P):  # noqa: C901, PLR0912, PLR0915
             if has_d and rng.random() < 0.5:
                 cargs.append("d")
                 lhs = add(lhs, var("d"))
-            if collide:
+            if log_w:
+                # log-grid nodes are materialised with a rounding error (logspace(1,4,3)[-1] = 3.9999998):
+                # a constraint that holds with equality at a node would be decided by that error, so the
+                # boundary is kept a quarter step away from every node/choice combination
+                funcs.append(mkfunc("bc_constraint", "constraint", _shuf(rng, cargs, P),
+                                    ["le", lhs, add(var("w"), const(F(1, 4)))]))
+                params["bc_constraint"] = {}
+            elif collide:
                 cargs.append("k")
                 funcs.append(mkfunc("bc_constraint", "constraint", _shuf(rng, cargs, P), ["le", lhs, add(var("w"), var("k"))]))
                 params["bc_constraint"] = {"k": q(rng.choice([0, 1, F(1, 2)]))}
